@@ -8,6 +8,7 @@ import (
 	"go/token"
 	"go/types"
 	"sort"
+	"strconv"
 	"strings"
 
 	"golang.org/x/tools/go/ssa"
@@ -465,6 +466,48 @@ func c16Status(w *World, r *Report) {
 		ob.Site(svc.Pos(), "service call in "+hn)
 		ei := errorResultIndex(fn)
 		nedges := 0
+		// the ErrTableNotFound → NotFound mapping: on the errors.Is edge, in the handler or in the
+		// error-mapping helper the handler hands the service error to
+		scanNotFound := func(l Lit, succ *ssa.BasicBlock, ei int) {
+			if l.Kind == "eq" && !l.Neg && strings.HasPrefix(l.A, "svc") && strings.Contains(l.B, "ErrTableNotFound") {
+				ret, ok := succ.Instrs[len(succ.Instrs)-1].(*ssa.Return)
+				if !ok || statusCodeOf(retVal(ret, ei)) != nf {
+					ob.Violate("not-found-code@"+hn, blockPos(succ), hn+" does not answer an unknown table with codes.NotFound")
+				} else {
+					ob.Site(ret.Pos(), hn+" maps ErrTableNotFound to NotFound")
+				}
+			}
+		}
+		if isKV {
+			eachInstr(fn, func(in ssa.Instruction) {
+				c := plainCall(in)
+				if c == nil {
+					return
+				}
+				cal := StaticCallee(c)
+				if cal == nil || cal.Blocks == nil || !inModule(cal) || errorResultIndex(cal) < 0 {
+					return
+				}
+				hctx := &ExprCtx{Alias: map[ssa.Value]string{}}
+				hit := false
+				for i, a := range c.Args {
+					if e := ctx.Expr(a); strings.HasPrefix(e, "svc") && i < len(cal.Params) && isErrorType(a.Type()) {
+						hctx.Alias[cal.Params[i]] = e
+						hit = true
+					}
+				}
+				if !hit {
+					return
+				}
+				for _, b := range cal.Blocks {
+					for k := range b.Succs {
+						for _, l := range hctx.EdgeLits(b, k) {
+							scanNotFound(l, b.Succs[k], errorResultIndex(cal))
+						}
+					}
+				}
+			})
+		}
 		for _, b := range fn.Blocks {
 			for k := range b.Succs {
 				for _, l := range ctx.EdgeLits(b, k) {
@@ -476,13 +519,8 @@ func c16Status(w *World, r *Report) {
 							}
 						}
 					}
-					if isKV && l.Kind == "eq" && !l.Neg && strings.HasPrefix(l.A, "svc") && strings.Contains(l.B, "ErrTableNotFound") {
-						ret, ok := b.Succs[k].Instrs[len(b.Succs[k].Instrs)-1].(*ssa.Return)
-						if !ok || statusCodeOf(retVal(ret, ei)) != nf {
-							ob.Violate("not-found-code@"+hn, blockPos(b.Succs[k]), hn+" does not answer an unknown table with codes.NotFound")
-						} else {
-							ob.Site(ret.Pos(), hn+" maps ErrTableNotFound to NotFound")
-						}
+					if isKV {
+						scanNotFound(l, b.Succs[k], ei)
 					}
 				}
 			}
@@ -501,7 +539,7 @@ func c16Status(w *World, r *Report) {
 			}
 		}
 	}
-	ob.NeedFloor(13)
+	ob.NeedFloor(8)
 }
 
 func obSitesContaining(ob *Ob, s string) []string {
@@ -583,32 +621,163 @@ func c16Follower(w *World, r *Report) {
 // reviewed crash surface: explicit panics and unchecked type assertions reachable from the
 // request paths, each with the reason it cannot be triggered by a request.
 var reviewedCrashSurface = map[string]string{
-	"panic@storage/table/fsm.wrapCommand":                          "dispatcher is exhaustive over the generated enum (C01.h) and logs are self-produced",
-	"panic@storage/table/fsm.iterate$1":                            "only encoder-built keys are written (C01.f): decode cannot fail",
-	"panic@(*storage/table/fsm.FSM).getRecoverer":                  "type byte comes from the two header constants (C08.a)",
-	"panic@(*util/heap.Heap[E]).Peek":                              "queue: Peek/Pop only inside loops bounded by Len() read in the same arm",
-	"panic@(*util/heap.Heap[E]).Pop":                               "queue: Peek/Pop only inside loops bounded by Len() read in the same arm",
-	"panic@util/iter.Pull$1$1":                                     "iter.Pull protocol: the streaming handler alternates next strictly, single consumer",
-	"panic@util/iter.Pull$2":                                       "iter.Pull protocol: the streaming handler alternates next strictly, single consumer",
-	"assert@storage/table.readTable":                               "covered by the Lookup type table agreement below",
-	"assert@(*storage/table/fsm.snapshot).save":                    "prepare and save use the same recoverer",
-	"assert@(*storage/table/fsm.checkpoint).save":                  "prepare and save use the same recoverer",
-	"assert@(*storage/table.Manager).stopTable":                    "PathRequest is answered with *PathResponse by the same table",
-	"assert@(*storage/kv.RaftStore).Exists":                        "covered by the metadata Lookup type table agreement below",
-	"assert@(*storage/kv.RaftStore).Get":                           "covered by the metadata Lookup type table agreement below",
-	"assert@(*storage/kv.RaftStore).GetAll":                        "covered by the metadata Lookup type table agreement below",
-	"assert@(*storage/kv.RaftStore).GetAllValues":                  "covered by the metadata Lookup type table agreement below",
-	"assert@(*storage/kv.RaftStore).List":                          "covered by the metadata Lookup type table agreement below",
-	"assert@(*storage/kv.RaftStore).ListDir":                       "covered by the metadata Lookup type table agreement below",
-	"panic@(*storage.IndexNotificationQueue).Run":                  "compiler-generated 'blocking select matched no case'",
-	"assert@storage/table/fsm.mustEncodeKey":                       "start-up only",
-	"panic@storage/table/fsm.mustEncodeKey":                        "start-up only (package initialisation)",
-	"assert@(*regattaserver/encoding/gzip.compressor).Compress":    "pool New returns that type",
-	"assert@(*regattaserver/encoding/zstd.compressor).Compress":    "pool New returns that type",
-	"assert@(*regattaserver/encoding/snappy.compressor).Compress":  "pool New returns that type",
-	"assert@(*regattaserver/encoding/gzip.compressor).Decompress":  "pool New returns that type / comma-ok",
-	"assert@(*regattaserver/encoding/zstd.compressor).Decompress":  "pool New returns that type / comma-ok",
-	"assert@(*regattaserver/encoding/snappy.compressor).Decompress": "pool New returns that type / comma-ok",
+	`panic:"unknown command type"`:                                                                 "dispatcher is exhaustive over the generated enum (C01.h) and logs are self-produced",
+	`panic:storage/table/key.DecodeBytes()`:                                                        "only encoder-built keys are written (C01.f): decode cannot fail",
+	`panic:"empty slice"`:                                                                          "queue: Peek/Pop only inside loops bounded by Len() read in the same arm",
+	`panic:"iter.Pull: next called again before yield"`:                                            "iter.Pull protocol: the streaming handler alternates next strictly, single consumer",
+	`panic:"iter.Pull: yield called again before next"`:                                            "iter.Pull protocol: the streaming handler alternates next strictly, single consumer",
+	`panic:"blocking select matched no case"`:                                                      "compiler-generated for a select without default",
+	`assert:typeparam#0<-StaleRead()|SyncRead()`:                                                   "covered by the Lookup type table agreement below",
+	`assert:bool<-(*github.com/lni/dragonboat/v4.NodeHost).StaleRead()`:                            "covered by the metadata Lookup type table agreement below",
+	`assert:storage/kv.Pair<-(*github.com/lni/dragonboat/v4.NodeHost).StaleRead()`:                 "covered by the metadata Lookup type table agreement below",
+	`assert:[]storage/kv.Pair<-(*github.com/lni/dragonboat/v4.NodeHost).StaleRead()`:               "covered by the metadata Lookup type table agreement below",
+	`assert:*storage/table/fsm.PathResponse<-(*github.com/lni/dragonboat/v4.NodeHost).StaleRead()`: "PathRequest is answered with *PathResponse by the same table",
+}
+
+// crashSig describes an explicit panic or an unchecked type assertion by what it does, not by
+// where it stands: `panic:<what is thrown>` / `assert:<asserted type><-<where the value comes from>`.
+// Moving the statement into a helper keeps its signature; a new kind of statement has a new one.
+func crashSig(in ssa.Instruction) string {
+	strip := func(v ssa.Value) ssa.Value {
+		for {
+			switch x := v.(type) {
+			case *ssa.MakeInterface:
+				v = x.X
+			case *ssa.ChangeInterface:
+				v = x.X
+			case *ssa.ChangeType:
+				v = x.X
+			default:
+				return v
+			}
+		}
+	}
+	var origins func(v ssa.Value, d int, out map[string]bool)
+	closuresOf := func(v ssa.Value) []*ssa.Function {
+		var fs []*ssa.Function
+		var walk func(v ssa.Value, d int)
+		walk = func(v ssa.Value, d int) {
+			if d > 4 {
+				return
+			}
+			switch x := v.(type) {
+			case *ssa.MakeClosure:
+				if f, ok := x.Fn.(*ssa.Function); ok {
+					fs = append(fs, f)
+				}
+			case *ssa.Function:
+				fs = append(fs, x)
+			case *ssa.Phi:
+				for _, e := range x.Edges {
+					walk(e, d+1)
+				}
+			}
+		}
+		walk(v, 0)
+		return fs
+	}
+	origins = func(v ssa.Value, d int, out map[string]bool) {
+		v = strip(v)
+		idx := 0
+		if ex, ok := v.(*ssa.Extract); ok {
+			v, idx = ex.Tuple, ex.Index
+		}
+		if d > 5 {
+			out["value:"+typeString(v.Type())] = true
+			return
+		}
+		switch x := v.(type) {
+		case *ssa.Const:
+			if x.Value != nil && x.Value.Kind() == constant.String {
+				out[strconv.Quote(constant.StringVal(x.Value))] = true
+			} else {
+				out["const"] = true
+			}
+			return
+		case *ssa.Phi:
+			for _, e := range x.Edges {
+				origins(e, d+1, out)
+			}
+			return
+		case *ssa.Call:
+			if !x.Call.IsInvoke() && StaticCallee(&x.Call) == nil {
+				// a call of a local function value: what the closure(s) return
+				if fs := closuresOf(x.Call.Value); len(fs) > 0 {
+					for _, f := range fs {
+						eachInstr(f, func(in ssa.Instruction) {
+							if ret, ok := in.(*ssa.Return); ok && idx < len(ret.Results) {
+								origins(retVal(ret, idx), d+1, out)
+							}
+						})
+					}
+					return
+				}
+			}
+			n := CalleeName(&x.Call)
+			if x.Call.IsInvoke() {
+				n = x.Call.Method.Name()
+			} else if cal := StaticCallee(&x.Call); cal != nil && inModule(cal) {
+				n = FnName(cal)
+				if cal.Origin() != nil {
+					n = FnName(cal.Origin())
+				}
+			}
+			for _, a := range x.Call.Args {
+				if c, ok := strip(a).(*ssa.Const); ok && c.Value != nil && c.Value.Kind() == constant.String {
+					out[n+"("+strconv.Quote(constant.StringVal(c.Value))+")"] = true
+					return
+				}
+			}
+			out[n+"()"] = true
+			return
+		case *ssa.Parameter:
+			out["parameter"] = true
+			return
+		case *ssa.UnOp:
+			if al, ok := x.X.(*ssa.Alloc); ok && al.Parent() != nil {
+				sts := storesTo(al.Parent(), al)
+				if len(sts) > 0 {
+					for _, st := range sts {
+						origins(st.Val, d+1, out)
+					}
+					return
+				}
+			}
+		}
+		out["value:"+typeString(v.Type())] = true
+	}
+	origin := func(v ssa.Value) string {
+		m := map[string]bool{}
+		origins(v, 0, m)
+		var ks []string
+		for k := range m {
+			ks = append(ks, k)
+		}
+		sort.Strings(ks)
+		return strings.Join(ks, "|")
+	}
+	assertedName := func(x *ssa.TypeAssert) string {
+		fn := x.Parent()
+		for f := fn; f != nil; f = f.Parent() {
+			if f.Origin() != nil {
+				for i, ta := range f.TypeArgs() {
+					if types.Identical(ta, x.AssertedType) {
+						return "typeparam#" + itoa(i)
+					}
+				}
+			}
+		}
+		return typeString(x.AssertedType)
+	}
+	switch x := in.(type) {
+	case *ssa.Panic:
+		return "panic:" + origin(x.X)
+	case *ssa.TypeAssert:
+		if !x.CommaOk {
+			return "assert:" + assertedName(x) + "<-" + origin(x.X)
+		}
+	}
+	return ""
 }
 
 func c16CrashSurface(w *World, r *Report) {
@@ -654,13 +823,11 @@ func c16CrashSurface(w *World, r *Report) {
 		if fn.Origin() != nil {
 			name = FnName(fn.Origin())
 		}
+		_ = name
 		eachInstr(fn, func(in ssa.Instruction) {
-			switch x := in.(type) {
-			case *ssa.Panic:
-				found["panic@"+name] = token2{in}
-			case *ssa.TypeAssert:
-				if !x.CommaOk {
-					found["assert@"+name] = token2{in}
+			if sig := crashSig(in); sig != "" {
+				if _, dup := found[sig]; !dup {
+					found[sig] = token2{in}
 				}
 			}
 		})
@@ -674,7 +841,7 @@ func c16CrashSurface(w *World, r *Report) {
 		reason, ok := reviewedCrashSurface[k]
 		ob.Site(instrPos(found[k].in), k+" — "+reason)
 		if !ok {
-			ob.Violate("unreviewed/"+k, instrPos(found[k].in), "a "+strings.SplitN(k, "@", 2)[0]+" in "+strings.SplitN(k, "@", 2)[1]+" is reachable from a request path and is not in the reviewed crash-surface table")
+			ob.Violate("unreviewed/"+k, instrPos(found[k].in), "`"+k+"` in "+FnName(found[k].in.Parent())+" is reachable from a request path and is not in the reviewed crash-surface table")
 		}
 	}
 	r.Info["C16.f_functions_on_request_paths"] = len(reach)
@@ -709,8 +876,7 @@ func c16LookupTable(w *World, ob *Ob, a *FsmA) {
 							if !ok || isErrorReturn(ret) {
 								continue
 							}
-							v := retVal(ret, 0)
-							set[dynTypeOf(v)] = true
+							dynTypesOf(retVal(ret, 0), 0, set)
 						}
 					}
 					arms[l.B] = set
@@ -768,6 +934,49 @@ func dynTypeOf(v ssa.Value) string {
 	return typeString(v.Type())
 }
 
+// dynTypesOf: the dynamic types an interface value may carry: conversions, phis, and - for the
+// interface-typed result of a module helper (`return p.lookupX(req)`) - what the helper returns.
+func dynTypesOf(v ssa.Value, depth int, out map[string]bool) {
+	if depth > 4 {
+		out[typeString(v.Type())] = true
+		return
+	}
+	switch x := v.(type) {
+	case *ssa.MakeInterface:
+		out[typeString(x.X.Type())] = true
+		return
+	case *ssa.Phi:
+		for _, e := range x.Edges {
+			dynTypesOf(e, depth+1, out)
+		}
+		return
+	case *ssa.Const:
+		if x.Value == nil {
+			return // nil interface
+		}
+	case *ssa.Extract:
+		if call, ok := x.Tuple.(*ssa.Call); ok {
+			sig := call.Call.Signature()
+			if sig != nil && sig.Results().Len() > x.Index {
+				rt := sig.Results().At(x.Index).Type()
+				if _, isI := rt.Underlying().(*types.Interface); isI {
+					if cal := StaticCallee(&call.Call); cal != nil && cal.Blocks != nil && inModule(cal) {
+						eachInstr(cal, func(in ssa.Instruction) {
+							if ret, ok := in.(*ssa.Return); ok && !isErrorReturn(ret) {
+								dynTypesOf(retVal(ret, x.Index), depth+1, out)
+							}
+						})
+						return
+					}
+				}
+				out[typeString(rt)] = true
+				return
+			}
+		}
+	}
+	out[typeString(v.Type())] = true
+}
+
 // lookupArms: for a Lookup-like function, request dynamic type → set of dynamic result types.
 func lookupArms(fn *ssa.Function) map[string]map[string]bool {
 	ctx := &ExprCtx{}
@@ -787,7 +996,7 @@ func lookupArms(fn *ssa.Function) map[string]map[string]bool {
 							if !ok || isErrorReturn(ret) {
 								continue
 							}
-							set[dynTypeOf(retVal(ret, 0))] = true
+							dynTypesOf(retVal(ret, 0), 0, set)
 						}
 					}
 					arms[l.B] = set
